@@ -36,7 +36,11 @@ def main():
         checks = args[args.index("--checks") + 1].split(",")
     if "--tier" in args:
         tier = args[args.index("--tier") + 1]
-    seed = "/tmp/seed_%s" % pid
+    rnd = ""
+    if "--round" in args:
+        rnd = args[args.index("--round") + 1]
+    seed = "/tmp/seed%s_%s" % (rnd if rnd != "1" else "", pid)
+    agent_wt = ("/tmp/w%s_%s" % (rnd, pid)) if rnd not in ("", "1") else ("/tmp/wt_%s" % pid)
     diff = os.path.join(seed, "%s.diff" % which)
     demo = os.path.join(seed, "demo%s" % which)
     rep = {}
@@ -44,12 +48,12 @@ def main():
         rep = json.load(open(os.path.join(seed, "report.json"))).get(which, {})
     except Exception:
         pass
-    name = "%s-%s" % (pid, which)
+    name = "%s-%s%s" % (pid, ("r%s" % rnd) if rnd not in ("", "1") else "", which)
     out = os.path.join(VERIF, "seeded", name)
     meta = {"property": pid, "variant": which, "agent_report": rep, "ran": []}
 
     # ---- 1. confirmation in a scratch worktree
-    wt = "/tmp/ev_%s_%s" % (pid, which)
+    wt = "/tmp/ev_%s_%s%s" % (pid, rnd, which)
     sh("git -C /repo worktree remove --force %s" % wt)
     shutil.rmtree(wt, ignore_errors=True)
     rc, o = sh("git -C /repo worktree add --detach %s HEAD" % wt)
@@ -71,7 +75,7 @@ def main():
             for f in files:
                 if f == "Cargo.toml" or f.endswith(".sh") or f == "config.toml":
                     p = os.path.join(root, f)
-                    s = open(p).read().replace("/tmp/wt_%s" % pid, wt)
+                    s = open(p).read().replace(agent_wt, wt)
                     open(p, "w").write(s)
         demo_cmd = rep.get("demo_cmd") or "cargo run --offline --release"
         flags = {}
